@@ -260,6 +260,9 @@ func randInts(r *rand.Rand, n int) []int {
 func c11Concretize(r *rand.Rand, ops []slOp, failLast bool) []slOp {
 	ref := &goSl{}
 	var out []slOp
+	// exact[v]: the capacity behind variable v is known exactly (the array came from a literal or make and
+	// has not been outgrown), so slicing beyond the length up to that capacity has a certain outcome
+	var exact [c11NV + 1]bool
 	for k, op := range ops {
 		last := failLast && k == len(ops)-1
 		switch op.Op {
@@ -278,6 +281,10 @@ func c11Concretize(r *rand.Rand, ops []slOp, failLast bool) []slOp {
 				}
 			} else if op.N == 1 && n >= 2 {
 				op.I, op.J = 1, n // the tail: overlaps the source from its second element on
+			} else if cp := cap(ref.v[op.Src]); exact[op.Src] && cp > n && r.Intn(3) == 0 {
+				// re-slice beyond the length, within the capacity: elements hidden by an earlier s[:k] reappear
+				op.I = r.Intn(n + 1)
+				op.J = n + 1 + r.Intn(cp-n)
 			} else {
 				op.I = r.Intn(n + 1)
 				op.J = op.I + r.Intn(n-op.I+1)
@@ -291,6 +298,18 @@ func c11Concretize(r *rand.Rand, ops []slOp, failLast bool) []slOp {
 			} else {
 				op.I = r.Intn(n)
 			}
+		}
+		switch op.Op {
+		case "lit", "make":
+			exact[op.V] = true
+		case "nil":
+			exact[op.V] = false
+		case "assign", "sub":
+			exact[op.V] = exact[op.Src]
+		case "append":
+			exact[op.V] = exact[op.Src] && len(ref.v[op.Src])+len(op.Elems) <= cap(ref.v[op.Src])
+		case "appendspread":
+			exact[op.V] = exact[op.Src] && len(ref.v[op.Src])+len(ref.v[op.From]) <= cap(ref.v[op.Src])
 		}
 		out = append(out, op)
 		if ref.apply(op) {
